@@ -1,6 +1,212 @@
-//! C28: not implemented yet.
+//! C28: no network access unless the configuration enables it.
+//! case: {op:"read"|"ingredient"|"sign", asset:{kind:"fixture",name,format} | {kind:"built",remote_url,no_embed,format},
+//!        settings: <json settings document or null>, tsa: bool, serve_manifest: bool}
+//! Every request made through the Context's resolver is recorded (and answered locally: the remote manifest
+//! when `serve_manifest`, 404 otherwise); requests made to the signer's time-stamp URL are recorded by a local
+//! listener on 127.0.0.1.
+//! out: {r, kind, detail, requests:[{via,method,url}], state, failure, remote_url}
+use std::{
+    io::{Cursor, Read, Write},
+    net::TcpListener,
+    sync::{
+        atomic::{AtomicBool, Ordering},
+        Arc, Mutex,
+    },
+};
+
+use c2pa::{
+    http::{
+        http::{Request, Response},
+        HttpResolverError, SyncHttpResolver,
+    },
+    Builder,
+};
 use serde_json::{json, Value};
 
-pub fn run(_case: &Value) -> Value {
-    json!({"r": "unimplemented"})
+use crate::{e2e, util::*};
+
+/// Records every request; serves `body` (status 200) for URLs equal to `serve_url`, 404 otherwise.
+#[derive(Clone, Default)]
+pub struct RecordingResolver {
+    pub log: Arc<Mutex<Vec<(String, String)>>>,
+    pub serve_url: Option<String>,
+    pub body: Arc<Vec<u8>>,
+}
+
+impl SyncHttpResolver for RecordingResolver {
+    fn http_resolve(&self, request: Request<Vec<u8>>) -> Result<Response<Box<dyn Read>>, HttpResolverError> {
+        let url = request.uri().to_string();
+        self.log.lock().unwrap().push((request.method().to_string(), url.clone()));
+        let (status, body): (u16, Vec<u8>) = match &self.serve_url {
+            Some(u) if *u == url => (200, self.body.as_ref().clone()),
+            _ => (404, Vec::new()),
+        };
+        let len = body.len();
+        let b: Box<dyn Read> = Box::new(Cursor::new(body));
+        Response::builder()
+            .status(status)
+            .header("content-length", len.to_string())
+            .body(b)
+            .map_err(HttpResolverError::Http)
+    }
+}
+
+/// A one-thread HTTP listener on 127.0.0.1 that records request lines and answers 404.
+pub struct LocalListener {
+    pub url: String,
+    pub hits: Arc<Mutex<Vec<String>>>,
+    stop: Arc<AtomicBool>,
+    addr: std::net::SocketAddr,
+    handle: Option<std::thread::JoinHandle<()>>,
+}
+
+impl LocalListener {
+    pub fn start(path: &str) -> LocalListener {
+        let l = TcpListener::bind("127.0.0.1:0").expect("bind");
+        let addr = l.local_addr().unwrap();
+        let hits = Arc::new(Mutex::new(Vec::new()));
+        let stop = Arc::new(AtomicBool::new(false));
+        let (h2, s2) = (hits.clone(), stop.clone());
+        let handle = std::thread::spawn(move || {
+            for conn in l.incoming() {
+                if s2.load(Ordering::SeqCst) {
+                    break;
+                }
+                if let Ok(mut c) = conn {
+                    let _ = c.set_read_timeout(Some(std::time::Duration::from_millis(500)));
+                    let mut buf = [0u8; 2048];
+                    let n = c.read(&mut buf).unwrap_or(0);
+                    let line = String::from_utf8_lossy(&buf[..n]).lines().next().unwrap_or("").to_string();
+                    h2.lock().unwrap().push(line);
+                    let _ = c.write_all(b"HTTP/1.1 404 Not Found\r\ncontent-length: 0\r\nconnection: close\r\n\r\n");
+                }
+            }
+        });
+        LocalListener { url: format!("http://{addr}{path}"), hits, stop, addr, handle: Some(handle) }
+    }
+
+    pub fn finish(mut self) -> Vec<String> {
+        self.stop.store(true, Ordering::SeqCst);
+        let _ = std::net::TcpStream::connect(self.addr); // wake the accept loop
+        if let Some(h) = self.handle.take() {
+            let _ = h.join();
+        }
+        let v = self.hits.lock().unwrap().clone();
+        v
+    }
+}
+
+fn tsa_signer(alg: &str, tsa: Option<String>) -> Box<dyn c2pa::Signer> {
+    let cert = e2e::fixture(&format!("certs/{alg}.pub"));
+    let key = e2e::fixture(&format!("certs/{alg}.pem"));
+    c2pa::create_signer::from_keys(&cert, &key, e2e::alg_of(alg), tsa).expect("signer")
+}
+
+/// Returns (asset bytes, format, sidecar manifest bytes if the asset was built without embedding).
+fn make_asset(a: &Value) -> (Vec<u8>, String, Option<Vec<u8>>) {
+    let format = a["format"].as_str().unwrap_or("image/jpeg").to_string();
+    match a["kind"].as_str().unwrap_or("fixture") {
+        "built" => {
+            // sign C.jpg with a plain context (no recording: this is preparation, not the operation under test)
+            let ctx = e2e::context_merged(Some(r#"{"verify":{"verify_after_sign":false},"builder":{"thumbnail":{"enabled":false}}}"#));
+            let mut b = Builder::from_context(ctx).with_definition(e2e::minimal_manifest("c28")).expect("definition");
+            if let Some(u) = a["remote_url"].as_str() {
+                b.set_remote_url(u);
+            }
+            if a["no_embed"].as_bool().unwrap_or(false) {
+                b.set_no_embed(true);
+            }
+            let src = e2e::fixture(a["source"].as_str().unwrap_or("C.jpg"));
+            let mut input = Cursor::new(src);
+            let mut out = Cursor::new(Vec::new());
+            let signer = e2e::signer("ed25519");
+            let m = b.sign(signer.as_ref(), &format, &mut input, &mut out).expect("prepare asset");
+            (out.into_inner(), format, Some(m))
+        }
+        _ => (e2e::fixture(a["name"].as_str().expect("asset name")), format, None),
+    }
+}
+
+pub fn run(case: &Value) -> Value {
+    let op = case["op"].as_str().unwrap_or("read");
+    let (asset, format, built_manifest) = make_asset(&case["asset"]);
+    let extra = case.get("settings").filter(|s| !s.is_null()).map(|s| s.to_string());
+    let mut resolver = RecordingResolver::default();
+    if case["serve_manifest"].as_bool().unwrap_or(false) {
+        if let Some(u) = case["asset"]["remote_url"].as_str() {
+            resolver.serve_url = Some(u.to_string());
+            resolver.body = Arc::new(built_manifest.clone().unwrap_or_default());
+        } else if let Some(s) = case["asset"]["sidecar"].as_str() {
+            resolver.serve_url = case["asset"]["url"].as_str().map(|s| s.to_string());
+            resolver.body = Arc::new(e2e::fixture(s));
+        }
+    }
+    let log = resolver.log.clone();
+    let ctx = e2e::context_merged(extra.as_deref()).with_resolver(resolver);
+    let listener = if case["tsa"].as_bool().unwrap_or(false) { Some(LocalListener::start("/tsa")) } else { None };
+
+    let res: Result<Value, c2pa::Error> = (|| match op {
+        "read" => {
+            let r = e2e::read(ctx, &format, &asset)?;
+            let rep = e2e::report(&r);
+            Ok(json!({"state": rep["state"], "failure": rep["failure"], "informational": rep["informational"],
+                      "remote_url": r.remote_url(), "embedded": r.is_embedded()}))
+        }
+        "ingredient" => {
+            let mut b = Builder::from_context(ctx).with_definition(e2e::minimal_manifest("c28"))?;
+            let mut src = Cursor::new(asset.clone());
+            b.add_ingredient_from_stream(json!({"title": "ing", "relationship": "componentOf"}).to_string(), &format, &mut src)?;
+            let v = serde_json::to_value(&b.definition).unwrap_or(Value::Null);
+            let mut codes = vec![];
+            let mut urls = vec![];
+            for i in v["ingredients"].as_array().cloned().unwrap_or_default() {
+                for s in i["validation_status"].as_array().cloned().unwrap_or_default() {
+                    codes.push(s["code"].as_str().unwrap_or("").to_string());
+                    if let Some(u) = s["url"].as_str() {
+                        urls.push(u.to_string());
+                    }
+                }
+            }
+            Ok(json!({"state": "Ingredient", "failure": codes, "urls": urls}))
+        }
+        "sign" => {
+            let signer = tsa_signer("ed25519", listener.as_ref().map(|l| l.url.clone()));
+            let mut b = Builder::from_context(ctx).with_definition(e2e::minimal_manifest("c28"))?;
+            if case["with_ingredient"].as_bool().unwrap_or(false) {
+                let mut src = Cursor::new(asset.clone());
+                b.add_ingredient_from_stream(json!({"title": "ing", "relationship": "parentOf"}).to_string(), &format, &mut src)?;
+            }
+            let src = if case["with_ingredient"].as_bool().unwrap_or(false) { e2e::fixture("C.jpg") } else { asset.clone() };
+            let sfmt = if case["with_ingredient"].as_bool().unwrap_or(false) { "image/jpeg".to_string() } else { format.clone() };
+            let mut input = Cursor::new(src);
+            let mut out = Cursor::new(Vec::new());
+            let m = b.sign(signer.as_ref(), &sfmt, &mut input, &mut out)?;
+            Ok(json!({"state": "Signed", "failure": [], "manifest_len": m.len()}))
+        }
+        _ => panic!("unknown op {op}"),
+    })();
+
+    let mut requests: Vec<Value> = log.lock().unwrap().iter().map(|(m, u)| json!({"via": "resolver", "method": m, "url": u})).collect();
+    if let Some(l) = listener {
+        let base = l.url.clone();
+        for line in l.finish() {
+            if !line.is_empty() {
+                requests.push(json!({"via": "tsa-listener", "method": line.split(' ').next().unwrap_or(""), "url": base}));
+            }
+        }
+    }
+    match res {
+        Ok(mut v) => {
+            v["r"] = json!("ok");
+            v["requests"] = json!(requests);
+            v
+        }
+        Err(e) => {
+            let detail = match &e {
+                c2pa::Error::RemoteManifestUrl(u) => u.clone(),
+                other => format!("{other}").chars().take(160).collect(),
+            };
+            json!({"r": "err", "kind": err_class(&e), "detail": detail, "requests": requests})
+        }
+    }
 }
